@@ -22,7 +22,7 @@ add("C05", "E1", "model_checking", "explicit-state BFS of the real Decoder with 
 add("C08", "E1", "model_checking", "explicit-state BFS of the idle phase over all noise strings (merged by state) + exhaustive directed enumeration history x noise x frame and cut-off frames",
     "(a) every noise string over the 6 byte classes up to length 24/40 (and over 12 further byte values up to length 10/12) from 9-10 idle histories, merged by (decoder snapshot, scanner state, count): the discarded report must come exactly at the byte completing the first start sequence and the decoder must then behave as new()+start; (b) 11 idle histories x every admissible noise string up to length 5/7 x 31 payloads through all front-ends; (c) every payload up to length 5/7 cut at every neutral offset followed by a frame, also with every capacity 0..6", "§6 C08")
 add("C14", "E1", "model_checking", "explicit-state BFS collecting every distinct boundary state, then exhaustive lock-step differential continuation of each against a new decoder",
-    "every distinct full decoder snapshot reached right after Ok/InvalidMessage/InvalidEsc/OutOfMemory/reset/finalize within depth 6/7 (1.3e5 boundary states over 8 buffer kinds in quick) x every continuation of <=2/3 symbols over 23 symbols incl. whole frames and pad-lying frames, CRC bytes adapted to either side: outputs must be identical call by call; branches are closed only on full state equality; plus the concatenation corollary on multi-frame streams at every transmission boundary", "§6 C14")
+    "every distinct full decoder snapshot reached right after Ok/InvalidMessage/InvalidEsc/OutOfMemory/reset/finalize within depth 6/7 (1.3e5 boundary states over 8 buffer kinds in quick) x every continuation of <=2/3 symbols over 23 symbols incl. whole frames and pad-lying frames, CRC bytes adapted to either side: outputs must be identical call by call; branches are closed only on full state equality; plus the concatenation corollary on multi-frame streams at every transmission boundary; plus every stream behind a transmission cut off by the next start sequence (all prefixes over {00,55} up to 6/7 bytes, also behind 1b, x 18 tails) against a new decoder", "§6 C14")
 add("C17", "E1", "model_checking", "explicit-state BFS of the real Decoder under the byte-accounting monitor, plus long-run paths (and, thorough, the same in a build without overflow checks)",
     "every discarded-bytes report, finalize/reset result and frame boundary on every explored transition (same space as C05) must tile the input: count == bytes since the previous boundary minus the start sequence; runs of 65534..65537 bytes before a start sequence, before finalize and inside a frame", "§6 C17")
 
